@@ -490,7 +490,11 @@ struct Machine {
                 int a = pick_live();
                 if (a < 0) return;
                 MChain m = slots[a].model;
-                Packet* p = new Packet(*slots[a].top(), Timestamp(std::chrono::microseconds(1000002)));
+                // the three cloning constructors, chosen by the depth of the chain (no further choice byte)
+                const PDU* src = slots[a].top();
+                Packet* p = m.size() % 3 == 0 ? new Packet(*src, Timestamp(std::chrono::microseconds(1000002)))
+                          : m.size() % 3 == 1 ? new Packet(src, Timestamp(std::chrono::microseconds(1000002)))
+                                              : new Packet(*src);
                 int c = pick_free();
                 if (c == a) { delete p; return; }
                 slots[c].packet = p; slots[c].model = m;
